@@ -103,6 +103,13 @@ let run (input : string) (obs : string) : string * string =
       else if get "result" = "is/1" then "fail:error-and-allowed-together"
       else "pass" in
     ("SKIP", v)
+  | "estress" ->
+    ("SKIP", if obs = "same" then "pass" else "fail:answer-depends-on-the-goroutine-schedule")
+  | "eeff" ->
+    (* the request depth only lowers the limit: (r, g) answers what (0, eff(r,g)) answers, on the same state *)
+    (match words obs with
+     | [a; b] -> ("SKIP", if a = b then "pass" else "fail:request-depth-r-under-global-g-differs-from-global-eff")
+     | _ -> ("SKIP", "na"))
   | "echeck" ->
     let tu = C18.p_tuple t in
     let rd = int_tok t in
